@@ -162,6 +162,8 @@ func judge(c Case) string {
 		}
 		add("print(c == "+bigLit(iv)+")", "true")
 		add("print(c+1 > "+bigLit(iv)+")", "true")
+		// an integer constant divides as an integer, whatever expression it came from (1.0 << 3)
+		add("print(c / 3 == "+bigLit(constant.BinaryOp(iv, token.QUO_ASSIGN, constant.MakeInt64(3)))+")", "true")
 		if !untyped || untyped && b.Kind() == types.UntypedInt || b.Kind() == types.UntypedRune {
 			add("print(c % 7 == "+bigLit(constant.BinaryOp(iv, token.REM, constant.MakeInt64(7)))+")", "true")
 		}
@@ -492,6 +494,7 @@ func TestPropConst(t *testing.T) {
 
 var (
 	reComplexExpr = regexp.MustCompile(`[0-9.]i\b|complex|real\(|imag\(`)
+	reTinyTerm    = regexp.MustCompile(`1e-300|1e-400|4\.9e-324|5e-324|0x1p-1074`)
 	reTiny        = regexp.MustCompile(`1e-400|4\.9e-324|5e-324|0x1p-1074`)
 	reFloatLit    = regexp.MustCompile(`[0-9]\.[0-9]|[0-9]e[0-9+-]|0x[0-9a-f.]+p`)
 	reHugeFloat   = regexp.MustCompile(`1e308|1\.8e308|1\.7976931348623157e308|1e100|3\.4028234663852886e38|3\.5e38|1e19|340282366920938463463374607431768211455`)
@@ -533,6 +536,10 @@ func classify(c Case, msg string) string {
 		return "C02-complex-constants"
 	case strings.Contains(msg, "observation program") && strings.Contains(msg, "operator % not defined on") && reFloatLit.MatchString(c.Expr):
 		return "C02-typed-int-const-keeps-float-kind"
+	case reTinyTerm.MatchString(c.Expr) && strings.ContainsAny(c.Expr, "+-") && strings.Contains(msg, "Go's exact value"):
+		// a term far below the 512 bits of precision is lost before the result is rounded
+		// (9007199254740993 + 0x1p-1074 is a tie for float64 without the tiny term)
+		return "C02-untyped-float-precision"
 	case (strings.HasPrefix(c.Type, "float") || strings.Contains(c.Expr, "float32(") || strings.Contains(c.Expr, "float64(")) && strings.Contains(msg, "Go's exact value") && (!strings.Contains(c.Expr, "/") || c.Type == "float32" || strings.Contains(c.Expr, "float32(") || strings.Contains(msg, "exact value is 0 ")):
 		return "C02-typed-float-constants-not-rounded"
 	case strings.HasPrefix(msg, "Scriggo rejects") && strings.Contains(msg, "truncated to integer") && strings.Contains(c.Expr, "1e19"):
